@@ -323,6 +323,20 @@ class Driver:
             self._od = getattr(self, "_od", 0) + 1
             m.objective = d if (d or self._od % 2) else []      # the empty objective as {} or []
             return {"raises": "none"}
+        if op == "addrxn":
+            import cobra
+            src = self.rx[s["r"] - 1]
+            k = self.n
+            rid = self.pal["rid"].format(k=k + 1, inv=100 + k)
+            r = cobra.Reaction(rid)
+            r.add_metabolites({mt: -c for mt, c in src.metabolites.items()})
+            r.bounds = (0, untok(s["ub"]))
+            r.gene_reaction_rule = "g%d" % (k + 1)
+            m.add_reactions([r])
+            self.rids.append(rid)
+            self.rx.append(m.reactions.get_by_id(rid))
+            self.n += 1
+            return {"raises": "none"}
         if op == "setdir":
             m.objective_direction = s["dir"]
             return {"raises": "none"}
@@ -715,7 +729,7 @@ def run(prop, tier, replay=None):
             cur = m
             for s in beh["steps"]:
                 cases.add(hash((cur, json.dumps(s, sort_keys=True))))
-                if s["op"] in ("setbounds", "setobj", "setdir", "setobjdict"):
+                if s["op"] in ("setbounds", "setobj", "setdir", "setobjdict", "addrxn"):
                     cur = cur + json.dumps(s, sort_keys=True)
         if traces:
             samples.append(traces[(len(traces) // 2 + sd) % len(traces)])
